@@ -51,6 +51,12 @@ func kindIndex() *pbsubstreams.Module_KindBlockIndex_ {
 	return &pbsubstreams.Module_KindBlockIndex_{KindBlockIndex: &pbsubstreams.Module_KindBlockIndex{OutputType: "proto:sf.substreams.index.v1.Keys"}}
 }
 
+// emptyWasm is a valid WebAssembly module without any function (header + one custom section named tag), so that
+// the real services get past the compilation of the request's binaries; no block is ever delivered, so nothing runs.
+func emptyWasm(tag byte) []byte {
+	return []byte{0, 'a', 's', 'm', 1, 0, 0, 0, 0, 2, 1, tag}
+}
+
 // validModules builds a small well-formed module graph: modules in topological
 // order, non-decreasing initial blocks along it, references only to earlier
 // modules of the right kind.
@@ -58,7 +64,7 @@ func validModules(r *rand.Rand, n int) *pbsubstreams.Modules {
 	mods := &pbsubstreams.Modules{}
 	nb := 1 + r.Intn(2)
 	for i := 0; i < nb; i++ {
-		mods.Binaries = append(mods.Binaries, &pbsubstreams.Binary{Type: "wasm/rust-v1", Content: []byte{0, 'a', 's', 'm', byte(i)}})
+		mods.Binaries = append(mods.Binaries, &pbsubstreams.Binary{Type: "wasm/rust-v1", Content: emptyWasm(byte('a' + i))})
 	}
 	initial := uint64(0)
 	initChoices := []uint64{0, 0, 0, 1, 5, 10, 100, 1000}
